@@ -26,6 +26,9 @@ HARNESS = {
     '/repo/internal/db/zz_c07_index_test.go': f'{V}/harness/db/zz_c07_index_test.go',
     '/repo/internal/db/zz_c07_counter_index_test.go': f'{V}/harness/db/zz_c07_counter_index_test.go',
     '/repo/internal/db/zz_c07_array_composite_test.go': f'{V}/harness/db/zz_c07_array_composite_test.go',
+    '/repo/internal/db/zz_c07_order_probes_test.go': f'{V}/harness/db/zz_c07_order_probes_test.go',
+    '/repo/internal/db/zz_c03_probes_test.go': f'{V}/harness/db/zz_c03_probes_test.go',
+    '/repo/internal/db/zz_c20_subscription_test.go': f'{V}/harness/db/zz_c20_subscription_test.go',
     '/repo/internal/db/zz_c09_relation_test.go': f'{V}/harness/db/zz_c09_relation_test.go',
     '/repo/internal/db/zz_c14_restart_test.go': f'{V}/harness/db/zz_c14_restart_test.go',
     '/repo/internal/db/zz_c13_partition_test.go': f'{V}/harness/db/zz_c13_partition_test.go',
@@ -157,7 +160,12 @@ if prop == 'C03':
     if pm.returncode != 0:
         probs.append({'history': 'a: create; deliver to b; a: name=fromA; b: points+=5; deliver b>a; a: age=2 (commit with two parents); time travel to it on a', 'commit': -1,
                       'what': ' '.join(l.strip() for l in pm.stdout.splitlines() if 'C03' in l)[:600] or 'merge-commit time travel test failed'})
-    summary.update({'bound': f'one document (register + counter), every linear history of set-name / increment of length <= {L}; at every commit: time-travel read == ordinary read recorded right after that commit; heads and current state unchanged by the reads; plus one branching history: time travel to a commit with two parents equals the ordinary read right after it',
+    pp, _ = gotest('^TestGovcC03(IndexedFilterAtCommit|AtDeleteCommit)$', {}, 300)
+    if pp.returncode != 0:
+        msgs = [l.strip() for l in pp.stdout.splitlines() if 'C03:' in l]
+        probs.append({'history': 'create; update / delete; query at the first commit with a filter on an indexed field; query at the deleting commit', 'commit': -1,
+                      'what': ' | '.join(msgs)[:900] or 'the time-travel probes failed: ' + (pp.stdout + pp.stderr)[-400:]})
+    summary.update({'bound': f'one document (register + counter), every linear history of set-name / increment of length <= {L}; at every commit: time-travel read == ordinary read recorded right after that commit; heads and current state unchanged by the reads; plus one branching history: time travel to a commit with two parents equals the ordinary read right after it; plus two probes: a filter on an indexed field at a commit answers as without the index, and a document can be queried at the commit that deleted it (the request returns)',
                     'cases': res['cases'], 'distinct_nontrivial': res['cases'], 'exhaustive': True, 'violating_histories': len({q['history'] for q in probs})})
     if probs:
         rp = f'{V}/replays/{prop}/bounded-history-1.json'
@@ -196,6 +204,11 @@ if prop == 'C07':
             for q in v['problems']:
                 if q.startswith('C07'):
                     probs.append({'history': v['history'], 'step': -1, 'what': q})
+    p5, _ = gotest('^TestGovcC07Order', {}, 300)
+    if p5.returncode != 0:
+        msgs = [l.strip() for l in p5.stdout.splitlines() if 'C07:' in l]
+        probs.append({'history': 'ordered listing served by an index (composite index with an array field; showDeleted)', 'step': 0, 'what': ' | '.join(msgs)[:900] or (p5.stdout + p5.stderr)[-400:]})
+    bound += '; two ordered-listing probes: order on the first field of a composite index (name, tags[]) returns every document once, showDeleted with order on an indexed field stays ordered'
     # the filter laws also compare every condition on a collection without indexes, with an index on every
     # field, and with a composite index whose second field is an array (documents identified by a key field)
     p4, res4 = gotest('^TestGovcC08FilterLaws$', {}, 900)
@@ -388,6 +401,20 @@ if prop in SCEN:
         lines.append(f'VIOLATION property={prop} replay={rp}' + ('' if (failed or hung) else ' no-failing-input-found'))
         violations.append(('scenarios', failed))
 
+if prop == 'C20':
+    p6, _ = gotest('^TestGovcC20Subscription', {}, 300)
+    summary['bound'] = summary.get('bound', '') + '; one subscription probe: a subscription on one collection yields one result per matching change and none for the changes of another collection'
+    summary['cases'] = summary.get('cases', 0) + 1
+    if p6.returncode != 0:
+        msgs = [l.strip() for l in p6.stdout.splitlines() if 'C20:' in l]
+        rp = f'{V}/replays/{prop}/bounded-history-2.json'
+        os.makedirs(os.path.dirname(rp), exist_ok=True)
+        json.dump({'property': prop, 'obligation': 'bounded stand-in: subscription probe', 'problems': msgs[:5] or [(p6.stdout + p6.stderr)[-1500:]],
+                   'replay_cmd': "go test -overlay <harness overlay> -vet=off -run '^TestGovcC20Subscription' ./internal/db"}, open(rp, 'w'), indent=1)
+        lines.append(f'VIOLATION property={prop} replay={rp}')
+        violations.append(('subscription probe', msgs[:2]))
+        summary['violating_histories'] = summary.get('violating_histories', 0) + 1
+
 if prop == 'C08':
     # the filter laws (boolean algebra of the compound operators, on a plain and on a fully indexed collection)
     p, res = gotest('^TestGovcC08FilterLaws$', {}, 900)
@@ -411,7 +438,7 @@ if prop == 'C08':
         print(f'VIOLATION property={prop} replay={rp} no-failing-input-found')
         sys.exit(1)
     fl += res2.get('problems') or []
-    summary['bound'] += '; listing laws: order + limit + offset = slice of the ordered listing, _count = number of listed rows, _sum/_min/_max/_avg = arithmetic over the listed non-null values (the average under limit/offset only when no value is null), groups partition the listing and _count/_sum of a group are over its members, several aggregates of one group with different filters are each computed over their own filtered members (3 x 3 filter pairs, both orders of appearance); 5 filters x 4 orders x 7 limit/offset pairs, plain and indexed (%d evaluations)' % res2['cases']
+    summary['bound'] += '; listing laws: order + limit + offset = slice of the ordered listing, _count = number of listed rows, _sum/_min/_max/_avg = arithmetic over the listed non-null values (the average under limit/offset only when no value is null), groups partition the listing and _count/_sum of a group are over its members, several aggregates of one group with different filters are each computed over their own filtered members (3 x 3 filter pairs, both orders of appearance); 7 filters x 4 orders x 7 limit/offset pairs, plain and indexed; every ordered listing is ordered by its first key and has the same key sequence with and without the indexes (%d evaluations)' % res2['cases']
     summary['cases'] += res2['cases']
     summary['distinct_nontrivial'] = summary['cases']
     summary['violating_histories'] = len(fl)
